@@ -13,7 +13,7 @@ package binary
 //gvc:  theory bv
 //gvc:  opt nomerge
 //gvc:  results err
-//gvc:  modifies w.#wlen, w.#wdata
+//gvc:  modifies w.#sink
 //gvc:  requires nonneg: n >= 0
 //gvc:  requires wnn: w != nil
 //gvc:  loop 1 unroll 10
